@@ -102,6 +102,10 @@ pub struct Inj {
     /// owner of the record that makes this injection out-of-bailiwick (what the oracle tests
     /// against the injector's territory when the marker address is *contacted*)
     pub cause_owner: String,
+    /// "" = add `recs` to the genuine response; "move" = additionally relocate the genuine answer
+    /// records into section `section` (1 authority / 2 additional), which makes the response an
+    /// *answer-less positive* response (empty answer section, the records asked for elsewhere)
+    pub mode: String,
 }
 
 #[derive(Clone, Debug, Default)]
@@ -187,7 +191,7 @@ impl World {
                 "ladder": s.ladder, "sink": s.sink,
                 "inj": s.inj.iter().map(|i| json!({
                     "m": i.m, "kind": i.kind, "section": i.section, "on": strs_json(&i.on), "only_qname": i.only_qname,
-                    "period": i.period, "recs": recs_json(&i.recs), "cause_owner": i.cause_owner,
+                    "period": i.period, "recs": recs_json(&i.recs), "cause_owner": i.cause_owner, "mode": i.mode,
                 })).collect::<Vec<_>>(),
             })).collect::<Vec<_>>(),
             "opts": {
@@ -230,6 +234,7 @@ impl World {
                                     period: i["period"].as_u64().unwrap_or(1).max(1) as u32,
                                     recs: recs_from(&i["recs"]),
                                     cause_owner: i["cause_owner"].as_str().unwrap_or("").to_string(),
+                                    mode: i["mode"].as_str().unwrap_or("").to_string(),
                                 })
                                 .collect()
                         })
